@@ -46,5 +46,13 @@
  */
 int snoopy_output_stderroutput (char const * const logMessage, __attribute__((unused)) char const * const arg)
 {
-    return fprintf(stderr, "%s\n", logMessage);
+    int charCount;
+
+    charCount = fprintf(stderr, "%s\n", logMessage);
+
+    // Hand the record over to the OS right away: if the upcoming exec succeeds, the
+    // process image (stdio buffers included) gets replaced and the record would be lost
+    fflush(stderr);
+
+    return charCount;
 }
